@@ -88,9 +88,9 @@ CLAIMS = {
         note='Trusted: svd returns singular values in descending order. Undecided: FD bracket, equality with full-matrix AdaGrad for low-rank histories (numerical).',
         design='4/C16'),
     'C17': dict(
-        technique='difference-bound abstract interpretation of the top-up loop (rank = dim + c, extra classes) with sympy as the ordering oracle; must-pass-through / dominance order of assertions; guarded-division (positivity) rule; grouping key rule',
-        text='Static: in every ordering class of the top-up loop 0 <= d(rank) <= -d(extra), rank\' <= dim and the loop leaves once the pool is exhausted, so with allocated <= budget asserted before it the group never exceeds group size * base rank; the rank <= dim and allocated <= budget assertions and the budget reset precede the top-up and the write-out; proportional phase hands out dim or rd(share) = int(share // 1) + 1 charging exactly rd - 1 from a pool reduced by one unit per layer, with every division guarded by a positivity test of the float32 remaining score (F19 repaired); groups are keyed by axis dimension and budgeted group size * base rank. Necessary conditions of C17.',
-        note='Trusted: non-negative finite scores; assertions executed. Undecided: the proportional phase tripping its own assertions (no allocation returned).',
+        technique='abstract interpretation of the python bookkeeping in create_redist_dict / create_groups (pvstatic.imp: symbolic values over a product of zone (difference-bound, Floyd-Warshall closure) and sign domains, one symbolic iteration per loop from a havocked head plus the invariant under check, path splitting on the code\'s own tests; no solver); roles (ranks dict, group, budget, proportional / top-up loops, pool variables) found by data flow, not by name',
+        text='Static: at the write-out of every group the facts sum(ranks) <= len(group) * sketchy_rank and "every rank <= dim" are established by assertions on every path and only the top-up loop touches the ranks afterwards; the top-up loop has a pool variable with 1 <= pool <= budget - sum(ranks) at entry and in every path of an iteration ranks do not decrease, d(ranks) + d(pool) <= 0, ranks stay <= dim, pool stays >= 0 and the loop continues only with pool >= 1; the proportional loop starts from a pool <= budget - len(group) (one rank per layer set aside), stores exactly one integer rank >= 1 per layer keyed by that layer, charges at least rank - 1, divides only by denominators the path knows to be positive (F19 repaired) and lowers the remaining score by at most the layer\'s own score; create_groups keys every layer by its axis dimension and places it in exactly that group. Necessary conditions of C17.',
+        note='Trusted: non-negative finite scores; assertions executed; nested helpers pure. Undecided: the proportional phase tripping its own assertions for float scores (no allocation returned).',
         design='4/C17'),
 }
 
